@@ -44,6 +44,11 @@ var cliFixtures = map[string]string{
 
 func init() {
 	cliFixtures["calc.bcl"] = "var x = 2\ndef srv \"a\" { port = 80 + x }\nprint \"ok\"\nprint x * 3\nbind srv -> struct\n"
+	// padded with a comment so that the file is 241 bytes long and its last line feed sits at offset 240: the last byte of its dump
+	// is then the one-byte varint 240, the largest of its class
+	if n := 241 - len(cliFixtures["calc.bcl"]); n > 2 {
+		cliFixtures["calc.bcl"] = "#" + strings.Repeat(".", n-2) + "\n" + cliFixtures["calc.bcl"]
+	}
 	cliFixtures["g.txt"] = cliFixtures["calc.bcl"]
 	cliFixtures["-"] = cliFixtures["calc.bcl"]
 }
